@@ -65,7 +65,7 @@ theorem C06_product_bounds (e : Env) (val : Val) (h : Feasible e val) (hf : FinB
 theorem C06_abs (e : Env) (val : Val) (h : Feasible e val) (a : Nat) :
     match preproAbs e a with
     | .alias v => val v = Con.eval tr trp val (.abs a)
-    | .redirectGetVar c _ => Con.eval tr trp val c = Con.eval tr trp val (.abs a)
+    | .redirect c => c = .lin 0 [(-1, a)] ∧ Con.eval tr trp val c = Con.eval tr trp val (.abs a)
     | .keep pre c => c = .abs a ∧ pre.Contains (Con.eval tr trp val (.abs a))
     | _ => False := by
   obtain ⟨hl, hu, hi⟩ := h a
@@ -82,6 +82,7 @@ theorem C06_abs (e : Env) (val : Val) (h : Feasible e val) (a : Nat) :
       have hx : val a ≤ 0 := by
         cases hub : (e a).ub <;> simp_all [le, ER.lt, ER.eq, ubOK]
         rcases h2 with h2 | h2 <;> linarith
+      refine ⟨rfl, ?_⟩
       by_cases h0 : 0 ≤ val a
       · have : val a = 0 := le_antisymm hx h0
         simp [Con.eval, linVal, this]
@@ -102,44 +103,143 @@ theorem C06_abs (e : Env) (val : Val) (h : Feasible e val) (a : Nat) :
         · exact this
         · exact this.neg
 
-/-- **abs, conversion level (partial)**: when the conversion of `−x` yields a *variable*, that variable is returned.
-The full statement — "`abs(x)` is replaced by an existing variable only if equal to it on the whole box" — is FALSE
-for the code as it exists, see `C06_counterexample_abs_fixed_negative`:
+/-! ## the tail of `BasicFCC::Convert` and `AssignResultVar2Args`, on the converter state -/
 
-  theorem C06_abs_assign (s) (a) (val) (h : s sound at val) :
-      (s.assign (.abs a)).2 = .var v → val v = |val a|        -- fails when lb = ub < 0
--/
-theorem C06_abs_assign_partial (s : State) (a v : Nat)
-    (hneg : preproAbs s.env a = .redirectGetVar (.lin 0 [(-1, a)]) (.abs a))
-    (hv : (s.assignBase (.lin 0 [(-1, a)])).2 = .var v) :
-    (s.assign (.abs a)).2 = .var v := by
-  simp only [State.assign, argNarrowing, prepro, hneg]
-  revert hv
-  cases hr : s.assignBase (.lin 0 [(-1, a)]) with
-  | mk s1 r => intro hv; simp only at hv; subst hv; rfl
+/-- **`Convert()` after preprocessing** (constant / map lookup / new result variable): if the inferred `pre` contains
+the value `x` of the (possibly rewritten) constraint `con`, then a returned constant equals `x`, and a returned
+variable — found through the map or newly created — has value `x` in every valuation satisfying the definitions of
+the resulting state. -/
+theorem C06_finish_sound (s : State) (pre : Pre) (con : Con) (val : Val) (x : Rat) (hwf : s.WF)
+    (hx : pre.Contains x) (hcon : con.eval tr trp val = x) :
+    (∀ c, (s.finish pre con).2 = .const c → c = fin x) ∧
+    (∀ v, (s.finish pre con).2 = .var v → DefsHold tr trp (s.finish pre con).1 val → val v = x) := by
+  unfold State.finish
+  by_cases hc : pre.isConstant = true
+  · simp only [hc, if_true]
+    refine ⟨fun c h => ?_, fun v h => by simp at h⟩
+    injection h with h; rw [← h]; exact C06_constant_sound pre x hx hc
+  · simp only [hc]
+    cases hm : s.mapFind con with
+    | some v =>
+      refine ⟨fun c h => by simp at h, fun v' h hd => ?_⟩
+      simp only at h; injection h with h; subst h
+      have := List.find?_some hm
+      simp only [decide_eq_true_eq] at this
+      rw [hd v con this, hcon]
+    | none =>
+      have hne : eq pre.lb pre.ub = false := by simpa [Pre.isConstant] using hc
+      refine ⟨fun c h => by simp [State.addVar, hne, State.addVarRaw] at h, fun v h hd => ?_⟩
+      simp only [State.addVar, hne, State.addVarRaw] at h hd
+      simp only [Bool.false_eq_true, if_false] at h hd
+      injection h with h; subst h
+      have : ((s.defs.push none).setIfInBounds s.vars.size (some con)).getD s.vars.size none = some con := by
+        rw [← hwf]; simp [Array.getD]
+      rw [hd _ con this, hcon]
 
-def cexAbsState : State :=
-  { vars := #[{ lb := fin 7, ub := fin 9, int := false }, { lb := fin (-2), ub := fin (-2), int := false }],
-    defs := #[none, none], fixed := [] }
+/-- **`AssignResultVar2Args`**: a constant outcome is turned into a variable fixed at it (reused from
+`map_fixed_vars_` or new); the returned variable has the value `x` in every valuation feasible for the new state. -/
+theorem C06_resultVar_sound (s : State) (r : Res) (val : Val) (x : Rat) (hfix : ∀ c, r = .const c → FixedOK s)
+    (hc : ∀ c, r = .const c → c = fin x) (hv : ∀ v, r = .var v → val v = x) (v : Nat)
+    (hf : Feasible (State.resultVar (s, r)).1.env val) (hr : (State.resultVar (s, r)).2 = some v) : val v = x := by
+  cases r with
+  | var v' => simp only [State.resultVar] at hr; injection hr with hr; subst hr; exact hv _ rfl
+  | throw w => simp [State.resultVar] at hr
+  | unsupported => simp [State.resultVar] at hr
+  | const c =>
+    have hcx := hc c rfl
+    subst hcx
+    simp only [State.resultVar, State.makeFixedVar] at hr hf
+    cases hfind : s.fixed.find? (fun kv => eq kv.1 (fin x)) with
+    | some kv =>
+      simp only [hfind] at hr hf
+      injection hr with hr; subst hr
+      have hmem := List.mem_of_find?_eq_some hfind
+      have hk := List.find?_some hfind
+      obtain ⟨h1, h2⟩ := hfix _ rfl kv hmem
+      obtain ⟨hl, hu, _⟩ := hf kv.2
+      have hkx : kv.1 = fin x := by
+        cases hk1 : kv.1 <;> simp_all [ER.eq]
+      rw [h1, hkx] at hl; rw [h2, hkx] at hu
+      exact le_antisymm hu hl
+    | none =>
+      simp only [hfind, State.addVarRaw] at hr hf
+      injection hr with hr; subst hr
+      obtain ⟨hl, hu, _⟩ := hf s.vars.size
+      simp only [State.env, Array.getD] at hl hu
+      simp at hl hu
+      simp only [lbOK, ubOK] at hl hu
+      exact le_antisymm hu hl
 
-/-- **Counterexample (open finding C06-abs-fixed-negative)**: `x0 ∈ [7,9]`, `x1` fixed at `−2`: `abs(x1)` is
-"replaced" by `x0` (the constant `2.0` returned for `−x1` is read back as variable index 0), yet `|x1| = 2 ∉ [7,9]`. -/
-theorem C06_counterexample_abs_fixed_negative :
-    (cexAbsState.assign (.abs 1)).2 = .var 0 ∧
-    ∀ val : Val, Feasible cexAbsState.env val → val 0 ≠ Con.eval tr trp val (.abs 1) := by
-  refine ⟨by decide +kernel, ?_⟩
-  intro val hf
-  obtain ⟨h0l, _, _⟩ := hf 0
-  obtain ⟨h1l, h1u, _⟩ := hf 1
-  have e0 : (cexAbsState.env 0).lb = fin 7 := by decide +kernel
-  have e1l : (cexAbsState.env 1).lb = fin (-2) := by decide +kernel
-  have e1u : (cexAbsState.env 1).ub = fin (-2) := by decide +kernel
-  rw [e0] at h0l; rw [e1l] at h1l; rw [e1u] at h1u
-  simp only [lbOK, ubOK] at h0l h1l h1u
-  have : val 1 = -2 := le_antisymm h1u h1l
-  simp only [Con.eval, this]
-  norm_num
-  linarith
+/-- **abs, conversion level, full strength** (after the fix 15ae342 in ampl/mp): whatever `AssignResult2Args(abs(x))`
+returns — the argument itself, the (possibly constant, hence fixed) variable for `−x`, a variable found through the map,
+or a new result variable — has the value `|x|` in every valuation that is feasible for the state before and after the
+call and satisfies the definitions of the resulting state.  No hypothesis on the argument's box: the fixed-negative
+case that failed before the fix (`C06_counterexample_abs_fixed_negative`, removed) is covered. -/
+theorem C06_abs_assign (s : State) (a : Nat) (val : Val) (hwf : s.WF) (hfix : FixedOK s)
+    (hf0 : Feasible s.env val) (hf : Feasible (s.assign (.abs a)).1.env val)
+    (hd : DefsHold tr trp (s.assign (.abs a)).1 val) :
+    (∀ c, (s.assign (.abs a)).2 = .const c → c = fin (Con.eval tr trp val (.abs a))) ∧
+    (∀ v, (s.assign (.abs a)).2 = .var v → val v = Con.eval tr trp val (.abs a)) := by
+  have habs := C06_abs tr trp s.env val hf0 a
+  have hassign : s.assign (.abs a) =
+      (match preproAbs s.env a with
+       | .redirect c2 =>
+         (match (State.resultVar (s.assignBase c2)).2 with
+          | some v => ((State.resultVar (s.assignBase c2)).1, Res.var v)
+          | none => ((State.resultVar (s.assignBase c2)).1, Res.unsupported))
+       | .unsupported => (s, .unsupported)
+       | _ => s.assignBase (.abs a)) := by
+    simp only [State.assign, argNarrowing, prepro]
+    rfl
+  rw [hassign] at hf hd ⊢
+  cases hp : preproAbs s.env a with
+  | «alias» v' =>
+    rw [hp] at habs hf hd
+    simp only at habs hf hd ⊢
+    simp only [State.assignBase, prepro, hp] at hf hd ⊢
+    exact ⟨fun c h => by simp at h, fun v h => by injection h with h; subst h; exact habs⟩
+  | keep pre c =>
+    rw [hp] at habs hf hd
+    simp only at habs hf hd ⊢
+    obtain ⟨rfl, hcont⟩ := habs
+    simp only [State.assignBase, prepro, hp] at hf hd ⊢
+    obtain ⟨h1, h2⟩ := C06_finish_sound tr trp s pre (.abs a) val _ hwf hcont rfl
+    exact ⟨h1, fun v h => h2 v h hd⟩
+  | redirect c2 =>
+    rw [hp] at habs hf hd
+    simp only at habs hf hd ⊢
+    obtain ⟨rfl, heq⟩ := habs
+    -- conversion of −x
+    obtain ⟨pre, hpre, hcont⟩ := C06_lin tr trp s.env val hf0 0 [(-1, a)]
+    have hbase : s.assignBase (.lin 0 [(-1, a)]) = s.finish pre (.lin 0 [(-1, a)]) := by
+      simp only [State.assignBase, hpre]
+    rw [hbase] at hf hd ⊢
+    obtain ⟨h1, h2⟩ := C06_finish_sound tr trp s pre (.lin 0 [(-1, a)]) val _ hwf hcont rfl
+    cases hrv : (State.resultVar (s.finish pre (.lin 0 [(-1, a)]))).2 with
+    | none => simp only [hrv]; exact ⟨fun c h => by simp at h, fun v h => by simp at h⟩
+    | some v' =>
+      simp only [hrv] at hf hd ⊢
+      refine ⟨fun c h => by simp at h, fun v h => ?_⟩
+      injection h with h; subst h
+      rw [← heq]
+      have hvar : ∀ v, (s.finish pre (.lin 0 [(-1, a)])).2 = .var v →
+          val v = Con.eval tr trp val (.lin 0 [(-1, a)]) := by
+        intro v h
+        apply h2 v h
+        have : (State.resultVar (s.finish pre (.lin 0 [(-1, a)]))).1 = (s.finish pre (.lin 0 [(-1, a)])).1 := by
+          simp [State.resultVar, h]
+        rw [← this]; exact hd
+      have hst : ∀ c, (s.finish pre (.lin 0 [(-1, a)])).2 = .const c → FixedOK (s.finish pre (.lin 0 [(-1, a)])).1 := by
+        intro c h
+        have : (s.finish pre (.lin 0 [(-1, a)])).1 = s := by
+          unfold State.finish at h ⊢
+          by_cases hc : pre.isConstant = true
+          · simp [hc]
+          · simp only [hc] at h ⊢
+            cases hm : s.mapFind (.lin 0 [(-1, a)]) <;> simp [hm] at h
+        rw [this]; exact hfix
+      exact C06_resultVar_sound (s.finish pre (.lin 0 [(-1, a)])).1 (s.finish pre (.lin 0 [(-1, a)])).2 val _ hst h1 hvar v' hf hrv
+  | unsupported => rw [hp] at habs; exact habs.elim
 
 /-! ## 0/1-valued results, counting -/
 
@@ -361,10 +461,26 @@ theorem C06_transcendental_ranges (x : ℝ) :
     (-1 ≤ Real.tanh x ∧ Real.tanh x ≤ 1) ∧ (0 ≤ Real.arccos x) ∧ (Real.arcsin x ≤ ((piLit : ℚ) : ℝ)) :=
   real_ranges x
 
-/-- **Counterexample (open finding C06-pi-literal)**: `Pi()` is a double below π, so
-`−Pi()/2 ≤ asin x`, `acos x ≤ Pi()`, `|atan x| ≤ Pi()/2` all fail for some real `x` (at `x = −1`, `x = −1`, large `|x|`).
-The full statements `∀ x, −Pi/2 ≤ arcsin x`, `∀ x, arccos x ≤ Pi`, `∀ x, |arctan x| ≤ Pi/2` are therefore false. -/
-theorem C06_counterexample_pi_literal :
+/-- **asin / acos / atan after the fix e4c42dd** (`Pi()` = the double nearest to π).
+(1) `Pi()` really is the nearest double: `0 < π − Pi() < 2⁻⁵²` (half the spacing of doubles in `[2,4)`).
+(2) For the *double-rounded* values: for every monotone rounding `rn` with `rn 0 = 0` that sends `π/2, −π/2, π` to
+`Pi()/2, −Pi()/2, Pi()` — which is what round-to-nearest does by (1) — the assigned bounds hold at every real `x`:
+`−Pi()/2 ≤ rn(asin x) ≤ Pi()`, `0 ≤ rn(acos x) ≤ Pi()`, `−Pi()/2 ≤ rn(atan x) ≤ Pi()/2`.
+What is NOT proved: that libm's `asin/acos/atan` are correctly rounded (they are not guaranteed to be); the actual
+libm values are only checked by the sampling oracle (incl. `x = ±1`, `±2⁶⁰`), where they coincide with the bounds. -/
+theorem C06_pi_rounded_ranges :
+    (0 < Real.pi - ((piLit : ℚ) : ℝ) ∧ Real.pi - ((piLit : ℚ) : ℝ) < 1 / 2 ^ 52) ∧
+    ∀ (rn : ℝ → ℝ), Monotone rn → rn 0 = 0 → rn (Real.pi / 2) = ((piLit : ℚ) : ℝ) / 2 →
+      rn (-(Real.pi / 2)) = -((piLit : ℚ) : ℝ) / 2 → rn Real.pi = ((piLit : ℚ) : ℝ) → ∀ x : ℝ,
+      (-((piLit : ℚ) : ℝ) / 2 ≤ rn (Real.arcsin x) ∧ rn (Real.arcsin x) ≤ ((piLit : ℚ) : ℝ)) ∧
+      (0 ≤ rn (Real.arccos x) ∧ rn (Real.arccos x) ≤ ((piLit : ℚ) : ℝ)) ∧
+      (-((piLit : ℚ) : ℝ) / 2 ≤ rn (Real.arctan x) ∧ rn (Real.arctan x) ≤ ((piLit : ℚ) : ℝ) / 2) :=
+  ⟨piLit_nearest, fun rn hm h0 h1 h2 h3 x => rounded_ranges rn hm h0 h1 h2 h3 x⟩
+
+/-- Without rounding the three bounds are missed by less than `2⁻⁵²` (any double constant is ≠ π): the exact real values
+`asin(−1) = −π/2`, `acos(−1) = π`, `atan(x)` for large `|x|` lie outside `[−Pi()/2, …]`, `[…, Pi()]`, `[−Pi()/2, Pi()/2]`.
+This is why (2) above is stated for rounded values; it is not a defect of the code. -/
+theorem C06_pi_exact_reals_outside :
     (Real.arcsin (-1) < -((piLit : ℚ) : ℝ) / 2) ∧ (((piLit : ℚ) : ℝ) < Real.arccos (-1)) ∧
     (∃ x : ℝ, ((piLit : ℚ) : ℝ) / 2 < Real.arctan x) ∧ (∃ x : ℝ, Real.arctan x < -((piLit : ℚ) : ℝ) / 2) :=
   real_pi_literal_cuts
